@@ -1,8 +1,8 @@
 SPECIFICATION Spec
 CONSTANTS
-  Cfg <- CfgT
+  Cfg <- CfgTasfound
   Kinds = {"scion"}
-  Shapes <- ShapesTableQ
+  Shapes <- ShapesOne
   Vias = {0, 21, 1, 2, 3, 4, 5}
   SrcDom = {"L", "F"}
   DstDom = {"F"}
@@ -15,6 +15,6 @@ CONSTANTS
   AuthDom <- AuthOK
   AlertDom <- NoAlert
   EpicDom <- EpicOK
-INVARIANTS TypeOK InvC01 InvC05 InvC06 InvC12 InvC13 InvC15 InvC15Answer InvPtr
-CONSTRAINT Emit
+INVARIANTS InvC06
+\* no scenarios
 CHECK_DEADLOCK FALSE
